@@ -98,7 +98,7 @@ TEXTS = {
  ),
  'C19': dict(
   text='Proved in Lean: floorTime_spec (= t - t mod d), floorTime_dvd, tickOf_spec, tickOf_ge_prev (ticks never decrease along a branch), tickOf_monotone_times (with monotone times no raising, tick depends on the commit alone), record_lists and recordAll_once (the tick-to-commits registry lists every consumed commit exactly once, under its tick). Model compared with FloorTime and the tick arithmetic of Consume on every run (boundaries +-1ns, pre-1990, far future, saturation).',
-  note=COMMON_NOTE + 'Truncate rounding of negative durations is a Go library fact (regenerated table in lean/Gen).',
+  note=COMMON_NOTE + 'time.Duration.Truncate is modelled as rounding toward zero and compared with the Go library on boundary inputs on every run.',
   technique='Lean 4 proof (integer arithmetic) + differential correspondence',
  ),
  'C20': dict(
